@@ -383,7 +383,7 @@ GHOST = [
     ("idx, is_enter = stack.pop()", g_iteration_starts),
     (_assigns_result_of("enter", "cur"), g_enter),
     ("stack.append((idx, False))", g_push_leave),
-    ("params[child] = cur", g_push_child),
+    ("stack.append((child, True))", g_push_child),  # the ghost position is taken where the frame is pushed (the value may be stored before or after)
     (_assigns_result_of("leave", "vals[idx]"), g_leave),
 ]
 
@@ -511,7 +511,9 @@ def ann_children_untouched(E, v, o):
     me = to_z3(v["idx"], "int")
     c, p = z3.Int(fresh_name("c")), z3.Int(fresh_name("p"))
     kids = z3.ForAll([c], z3.Implies(z3.And(c >= 0, c < n, sel(P, c) == me), z3.And(c != root, c != me, sel(s["gE"], c) == 0, sel(s["gL"], c) == 0)))
-    frames = z3.ForAll([p], z3.Implies(z3.And(0 <= p, p < ln), z3.And(sel(s["idx"], p) != me, z3.Or(sel(s["idx"], p) == root, sel(P, sel(s["idx"], p)) != me))))
+    # "below the frame just popped" = positions < posE[me] (the popped enter frame sat there; the leave frame of `me` may or may not be pushed yet)
+    below = sel(s["posE"], me)
+    frames = z3.ForAll([p], z3.Implies(z3.And(0 <= p, p < below), z3.And(sel(s["idx"], p) != me, z3.Or(sel(s["idx"], p) == root, sel(P, sel(s["idx"], p)) != me))))
     return z3.And(kids, frames)
 
 
